@@ -55,7 +55,10 @@ package args
 //@   loop 0: invariant fresh(res)
 //@ // every stored value has its integers within the safe range
 //@ pure func argsInBounds(a *Args) bool = forall k string :: has(a.Values, k) ==> intsInBounds(a.Values[k])
+//@ // the verdict of Validate, named as a function of the arguments (Validate is deterministic and writes nothing)
+//@ ghost func argsValErr(a *Args) error
 //@ func (*Args).Validate
+//@   assumes result == argsValErr(a)
 //@   requires a != nil && (forall k string :: has(a.Values, k) ==> a.Values[k] != nil)
 //@   ensures [C10] bounds: result == nil ==> argsInBounds(a)
 //@   assigns [C20] nothing
